@@ -264,6 +264,7 @@ type VC struct {
 	inlined      map[string]bool
 	pending      []pendingFact
 	specUsed     map[string]bool
+	axUsed       map[string]bool
 	oblNames     map[string]int
 	ssubSeen     map[string]bool
 	smokes       []*Obligation
